@@ -110,13 +110,26 @@ def check(ctx, build=None):
             viol("C02 catalogue: the emitted file is not readable top to bottom", {"proto": "k4-catalogue"},
                  "definitions in dependency order, each name once", {"order": r["order_violations"][:5], "duplicates": r["duplicates"]})
         # ---- look-alikes, one package each
-        for lid, (src, extra) in c02cat.LOOKALIKES.items():
+        for lid, ent in c02cat.LOOKALIKES.items():
+            src, extra = ent[0], ent[1]
             lf, lc = lookalike_package(src, extra)
             lr = k4.run_package(lf, lc, os.path.join(scratch, "look"))
             stats["lookalike_packages"] += 1
             eid = "lookalike:" + lid
             if lr["text"] is None or "F" in lr["rejected"] or lr["parse_error"] or "F" in lr.get("tainted", ()):
                 per_entry[eid]["rejected"] += 1
+                continue
+            if len(ent) > 2:
+                # uses declarations of another user package: judged on the emitted text of F
+                body = k4.emitted_def(lr["text"], "F") or ""
+                missing = [x for x in ent[2] if x not in body]
+                if missing:
+                    per_entry[eid]["wrong"] += 1
+                    viol("C02: a user package that shares its name with an FFI package gets the FFI meaning",
+                         {"proto": "k4-lookalike", "entry": eid, "package": {k: v for k, v in lf.items() if not k.endswith("run.go") and not k.startswith("cmd/")}, "emitted": body},
+                         {"emitted_mentions": ent[2]}, {"missing": missing})
+                else:
+                    per_entry[eid]["faithful"] += 1
                 continue
             if lr["mismatches"]:
                 per_entry[eid]["wrong"] += 1
@@ -186,7 +199,7 @@ def replay(ctx, path):
     bad = []
     try:
         if inp["proto"] == "k4-lookalike":
-            src, extra = c02cat.LOOKALIKES[entry.split(":", 1)[1]]
+            src, extra = c02cat.LOOKALIKES[entry.split(":", 1)[1]][:2]
             lf, lc = lookalike_package(src, extra)
             r = k4.run_package(lf, lc, scratch)
             bad = r["mismatches"]
